@@ -642,6 +642,9 @@ def _along_chi(mode, py, stmts, pos, seen):
         bas, dirs = aslist(d.value.args[2]), aslist(d.value.args[3])
         ep = d.value.args[4]
         k = int(axis)
+        # the polynomial is built from the bare profile variable (no reversal, slicing, ...)
+        if not isinstance(d.value.args[0], ast.Name):
+            return False
         return bool(bas and dirs and len(bas) == len(dirs) and 0 <= k < len(dirs) and
                     dirs[k] == "z" and bas[k] == "Cardinal" and
                     isinstance(ep, ast.Constant) and ep.value is True and
@@ -649,6 +652,22 @@ def _along_chi(mode, py, stmts, pos, seen):
     # finite differences: through the findiff matrix built on the chi grid (first element of
     # getCompactCoordinates(endpoints=True)), never the rz one
     if "derivMatrixChi" not in names or "derivMatrixRz" in names:
+        return False
+    # ... applied in one of the recognised ways: D @ profile (rank 1), or for the
+    # (particle, position) array the broadcast sum over the last axis / einsum('ij,aj->ai')
+    inner = ast.unparse(val.value)
+    prof = {"dTemperaturedChi": "temperatureFull", "dvdChi": "vFull",
+            "dMsqdChi": "msqFull"}[py]
+    if py == "dMsqdChi":
+        ok_forms = ("np.sum(derivMatrixChi.toarray()[None, :, :] * msqFull[:, None, :], axis=-1)",
+                    "np.einsum('ij,aj->ai', derivMatrixChi.toarray(), msqFull)")
+    else:
+        ok_forms = ("derivMatrixChi @ %s" % prof,)
+    if inner not in ok_forms:
+        return False
+    kp, dp = _last_def(stmts, pos, prof)
+    if dp is None or isinstance(dp.value, ast.Subscript) or (
+            isinstance(dp.value, ast.Call) and ast.unparse(dp.value.func) != "np.array"):
         return False
     k, d = _last_def(stmts, pos, "derivMatrixChi")
     if d is None or not (isinstance(d.value, ast.Call) and isinstance(d.value.func, ast.Attribute)
@@ -659,7 +678,9 @@ def _along_chi(mode, py, stmts, pos, seen):
     if op is None or not (isinstance(op.value, ast.Call) and
                           ast.unparse(op.value.func) in ("findiff.FinDiff", "FinDiff") and
                           len(op.value.args) == 1 and isinstance(op.value.args[0], ast.Tuple) and
-                          len(op.value.args[0].elts) == 3):
+                          len(op.value.args[0].elts) == 3 and
+                          [(k_.arg, ast.unparse(k_.value)) for k_ in op.value.keywords]
+                          == [("acc", "2")]):
         return False
     ax, gridname, order = op.value.args[0].elts
     if not (const_value(ax) == 0 and const_value(order) == 1 and isinstance(gridname, ast.Name)):
@@ -710,12 +731,18 @@ def fd_copy_facts(eom_src, coll_src):
                 if tgt is None:
                     raise TranslateError("store to %s (line %d)" % (ast.unparse(tg),
                                                                     st.lineno))
-                if tg.attr == "derivatives":
-                    ops.append((tgt, "SetDerivs"))
-                elif tg.attr == "basisN":
-                    ops.append((tgt, "SetBasisN"))
-                elif tg.attr == "basisM":
-                    ops.append((tgt, "SetBasisM"))
+                want = {"derivatives": ("SetDerivs", "Finite Difference"),
+                        "basisN": ("SetBasisN", "Cardinal"),
+                        "basisM": ("SetBasisM", "Cardinal")}.get(tg.attr)
+                if want is not None:
+                    # the heap model reads SetDerivs as := "Finite Difference" and SetBasisN/M
+                    # as := "Cardinal": the assigned VALUE must be exactly that constant
+                    if not (isinstance(val, ast.Constant) and val.value == want[1]):
+                        raise TranslateError(
+                            "getBoltzmannFiniteDifference: %s is assigned %s, the model only "
+                            "knows := %r (line %d)" % (tg.attr, ast.unparse(val)[:40], want[1],
+                                                       st.lineno))
+                    ops.append((tgt, want[0]))
                 else:
                     raise TranslateError("store to solver attribute %s (line %d)" % (
                         tg.attr, st.lineno))
@@ -736,8 +763,18 @@ def fd_copy_facts(eom_src, coll_src):
                 raise TranslateError("call %s (line %d)" % (ast.unparse(call)[:50],
                                                             st.lineno))
             if sub == "collisionArray" and meth == "changeBasis":
+                if not (len(call.args) == 1 and not call.keywords and
+                        isinstance(call.args[0], ast.Constant) and
+                        call.args[0].value == "Cardinal"):
+                    raise TranslateError("getBoltzmannFiniteDifference: changeBasis(%s), the "
+                                         "model only knows changeBasis('Cardinal') (line %d)" % (
+                                             ", ".join(ast.unparse(a) for a in call.args),
+                                             st.lineno))
                 ops.append((tgt, "ChangeCollBasis"))
             elif sub == "" and meth == "getDeltas":
+                if call.args or call.keywords:
+                    raise TranslateError("getBoltzmannFiniteDifference: getDeltas with "
+                                         "arguments (line %d)" % st.lineno)
                 ops.append((tgt, "Solve"))
             else:
                 raise TranslateError("call %s (line %d)" % (ast.unparse(call)[:50],
@@ -948,6 +985,38 @@ def deltaF_use_facts(src):
                               and e.id != "_"}
                 if isinstance(st.targets[0], ast.Name) and isinstance(st.value, ast.Tuple):
                     consts.setdefault(st.targets[0].id, []).append(ast.unparse(st.value))
+        # single assignment of everything the recognisers rely on
+        nstores = {}
+        for n in ast.walk(fn):
+            if isinstance(n, ast.Name) and isinstance(n.ctx, ast.Store):
+                nstores[n.id] = nstores.get(n.id, 0) + 1
+        for nm in sorted(built):
+            if nstores.get(nm, 0) != 1:
+                uses.append((coq, "URaw", fn.lineno, "%s (returned by buildLinearEquations) is "
+                             "assigned %d times" % (nm, nstores.get(nm, 0))))
+        polyvars = set()
+        for st in ast.walk(fn):
+            if isinstance(st, ast.Assign) and isinstance(st.value, ast.Call) and \
+                    ast.unparse(st.value.func) == "Polynomial" and st.value.args and \
+                    ast.unparse(st.value.args[0]) == "deltaF" and \
+                    isinstance(st.targets[0], ast.Name):
+                polyvars.add(st.targets[0].id)
+        for nm in sorted(polyvars):
+            if nstores.get(nm, 0) != 1:
+                uses.append((coq, "URaw", fn.lineno, "%s is assigned %d times" % (nm, nstores[nm])))
+            ncb = sum(1 for c in ast.walk(fn) if isinstance(c, ast.Call) and
+                      ast.unparse(c.func) == nm + ".changeBasis")
+            if ncb != 1:
+                uses.append((coq, "URaw", fn.lineno, "%s.changeBasis is called %d times" % (nm, ncb)))
+        nsolve = [c for c in ast.walk(fn) if isinstance(c, ast.Call) and
+                  ast.unparse(c.func) == "self.solveBoltzmannEquations"]
+        for c in nsolve:
+            stc = c
+            while stc in par and not isinstance(stc, ast.stmt):
+                stc = par[stc]
+            if ast.unparse(stc) != "deltaF = self.solveBoltzmannEquations()":
+                uses.append((coq, "URaw", c.lineno, "solveBoltzmannEquations() bound to "
+                             "something else than deltaF"))
         stmts_flat = []
 
         def flat(b):
@@ -1050,6 +1119,121 @@ def copy_hook_facts(sources):
                                 found.append((fname, n.name, t.id, f.lineno))
     return found
 
+
+# ------------------------------------------------------------------------------------
+# the plain setters / constructor of the solver, precision, class-level machinery
+
+def setter_facts(src):
+    """setCollisionArray, updateParticleList store their argument itself; __init__ stores its
+    parameters / None / []; fail closed otherwise"""
+    want = {"setCollisionArray": ["self.collisionArray = collisionArray"],
+            "updateParticleList": ["for p in offEqParticles:\n    assert isinstance(p, Particle)",
+                                   "self.offEqParticles = offEqParticles"]}
+    for name, body in want.items():
+        fn = _method(src, name)
+        got = [ast.unparse(st) for st in _body(fn)]
+        if got != body:
+            raise TranslateError("%s: body %r is not the plain store %r (line %d)" % (
+                name, got, body, fn.lineno))
+    init = _method(src, "__init__")
+    params = [a.arg for a in init.args.args][1:]
+    stores = {}
+    for st in ast.walk(init):
+        if isinstance(st, ast.Assign):
+            for t in st.targets:
+                if isinstance(t, ast.Attribute) and ast.unparse(t.value) == "self":
+                    v = ast.unparse(st.value)
+                    if t.attr in stores or not (v in params or v in ("None", "[]")):
+                        raise TranslateError("__init__: self.%s = %s (line %d)" % (
+                            t.attr, v[:40], st.lineno))
+                    stores[t.attr] = v
+    need = dict(grid="grid", derivatives="derivatives", basisM="basisM", basisN="basisN",
+                collisionMultiplier="collisionMultiplier", background="None",
+                collisionArray="None", offEqParticles="[]")
+    if stores != need:
+        raise TranslateError("__init__ stores %r, expected %r" % (stores, need))
+    return True
+
+
+DOWNCAST = ("astype", "float32", "float16", "single", "half", "dtype", "longdouble", "view")
+
+
+def precision_facts(src):
+    """no precision-changing construct in buildLinearEquations / solveBoltzmannEquations /
+    _feq / _dfeq: with float64 inputs (checked at run time) everything stays double"""
+    bad = []
+    for name in ("buildLinearEquations", "solveBoltzmannEquations", "_feq", "_dfeq"):
+        fn = _method(src, name)
+        for n in ast.walk(fn):
+            tok = None
+            if isinstance(n, ast.Attribute) and n.attr in DOWNCAST:
+                tok = n.attr
+            if isinstance(n, ast.keyword) and n.arg in DOWNCAST:
+                tok = n.arg
+            if isinstance(n, ast.Name) and n.id in DOWNCAST:
+                tok = n.id
+            if tok:
+                bad.append((name, tok, getattr(n, "lineno", fn.lineno)))
+    return bad
+
+
+PLAIN_CLASSES = {"boltzmann.py": ("BoltzmannSolver",), "containers.py": ("BoltzmannBackground",),
+                 "collisionArray.py": ("CollisionArray",), "polynomial.py": ("Polynomial",),
+                 "grid.py": ("Grid",), "grid3Scales.py": ("Grid3Scales",),
+                 "particle.py": ("Particle",), "fields.py": ("Fields", "FieldPoint")}
+ALLOWED_BASES = {"Grid3Scales": ["Grid"], "Fields": ["np.ndarray"], "FieldPoint": ["np.ndarray"]}
+
+
+def class_machinery(sources):
+    """Fail closed on everything that changes what attribute access / method calls / copies of
+    the objects reachable from the solver mean without showing in the method bodies read here:
+    pyrx.check_plain_class (decorators, properties shadowing attributes, attribute and copy
+    hooks, metaclasses, duplicate definitions) on every such class, unknown base classes
+    (mixins), hooks or methods attached after the class body (Cls.name = ..., setattr(Cls, ..)),
+    copyreg."""
+    for fname, classes in PLAIN_CLASSES.items():
+        src = sources.get(fname)
+        if src is None:
+            raise TranslateError("source %s not available" % fname)
+        tree = ast.parse(src)
+        found = set()
+        for n in tree.body:
+            if isinstance(n, ast.ClassDef) and n.name in classes:
+                found.add(n.name)
+                allow = ("__new__",) if fname == "fields.py" else ()
+                pyrx.check_plain_class(n, allow_hooks=allow)
+                bases = [ast.unparse(b) for b in n.bases]
+                if bases != ALLOWED_BASES.get(n.name, []):
+                    raise TranslateError("class %s has bases %r (expected %r)" % (
+                        n.name, bases, ALLOWED_BASES.get(n.name, [])))
+                for f in n.body:
+                    if isinstance(f, ast.FunctionDef):
+                        for d in f.decorator_list:
+                            if ast.unparse(d) not in ("staticmethod", "classmethod"):
+                                raise TranslateError("%s.%s is decorated with %s" % (
+                                    n.name, f.name, ast.unparse(d)))
+        if found != set(classes):
+            raise TranslateError("%s: classes %r not found" % (fname, set(classes) - found))
+        names = set(classes)
+        for n in ast.walk(tree):
+            tg = []
+            if isinstance(n, ast.Assign):
+                tg = n.targets
+            elif isinstance(n, (ast.AugAssign, ast.AnnAssign)):
+                tg = [n.target]
+            for t in tg:
+                if isinstance(t, ast.Attribute) and isinstance(t.value, ast.Name) and \
+                        t.value.id in names:
+                    raise TranslateError("%s: %s is assigned after the class body (line %d)" % (
+                        fname, ast.unparse(t), n.lineno))
+            if isinstance(n, ast.Call) and ast.unparse(n.func) in ("setattr", "delattr") and \
+                    n.args and isinstance(n.args[0], ast.Name) and n.args[0].id in names:
+                raise TranslateError("%s: %s on a class (line %d)" % (
+                    fname, ast.unparse(n)[:40], n.lineno))
+            if isinstance(n, (ast.Import, ast.ImportFrom)) and "copyreg" in ast.unparse(n):
+                raise TranslateError("%s imports copyreg (line %d)" % (fname, n.lineno))
+    return True
+
 REACHABLE = ("boltzmann.py", "containers.py", "collisionArray.py", "polynomial.py", "grid.py",
              "grid3Scales.py", "fields.py", "particle.py")
 
@@ -1062,7 +1246,7 @@ Local Open Scope R_scope.
 """
 
 
-def generate(boltz_src, eom_src, coll_src, cont_src, reachable=None):
+def generate(boltz_src, eom_src, coll_src, cont_src, reachable=None, runtime_hooks=()):
     tr = BoltzTranslator(boltz_src)
     deps = tr.build()
     dfacts = derivative_facts(boltz_src)
@@ -1074,7 +1258,11 @@ def generate(boltz_src, eom_src, coll_src, cont_src, reachable=None):
     srcs.setdefault('boltzmann.py', boltz_src)
     srcs.setdefault('containers.py', cont_src)
     srcs.setdefault('collisionArray.py', coll_src)
-    hooks = copy_hook_facts(srcs)
+    hooks = copy_hook_facts(srcs) + [("<runtime>",) + tuple(h) for h in runtime_hooks]
+    if reachable:
+        class_machinery(srcs)
+    setter_facts(boltz_src)
+    downcast = precision_facts(boltz_src)
     out = [PRELUDE, "(* generated from src/WallGo/boltzmann.py, equationOfMotion.py, "
                     "collisionArray.py *)", tr.header()] + tr.defs
     out.append(tr.setter("coll"))
@@ -1097,12 +1285,15 @@ def generate(boltz_src, eom_src, coll_src, cont_src, reachable=None):
     out.append("Definition bg_boost_rebinds : bool := %s." % ("true" if bg["rebinds"] else "false"))
     out.append("(* copy hooks (%s) defined by classes in %s: %s *)" % (
         ", ".join(COPY_HOOKS), ", ".join(sorted(srcs)),
-        "; ".join("%s:%s.%s line %d" % h for h in hooks) or "none"))
+        "; ".join(":".join(str(x) for x in h) for h in hooks) or "none"))
     out.append("Definition deepcopy_structural : bool := %s." % ("false" if hooks else "true"))
     out.append("(* solveBoltzmannEquations *)")
     out.append("Definition solve_steps : list sstep := [%s]." % "; ".join(sv["steps"]))
     out.append("Definition solve_shape : list saxis := [%s]." % "; ".join(sv["shape"]))
     out.append("Definition build_flat : list saxis := [%s]." % "; ".join(sv["flat"]))
+    out.append("(* precision-changing constructs in build / solve / _feq / _dfeq: %s *)" % (
+        "; ".join("%s:%s line %d" % b for b in downcast) or "none"))
+    out.append("Definition no_downcast : bool := %s." % ("false" if downcast else "true"))
     out.append("(* uses of deltaF in getDeltas / checkLinearization / estimateTruncationError *)")
     out.append("Definition deltaF_uses : list (dmeth * duse) :=\n  [%s]." % ";\n   ".join(
         "(%s, %s) (* line %d: %s *)" % (m, u, ln, " ".join(txt.replace("*)", "* )").split())) for m, u, ln, txt in du))
